@@ -430,9 +430,9 @@ def parseDirective : Nat → Src → Except String (AstNode × Src)
         | some sz => parseData fuel sz [] s
         | none =>
           match String.ofList name with
-          | "addr" => parseExprDirective fuel s .addr
-          | "align" => parseExprDirective fuel s .align
-          | "res" => parseExprDirective fuel s .res
+          | "addr" => parseExprDirective fuel s (fun e => .addr e)
+          | "align" => parseExprDirective fuel s (fun e => .align e)
+          | "res" => parseExprDirective fuel s (fun e => .res e)
           | "assert" => parseExprDirective fuel s .assert
           | "bank" =>
             match expect .Identifier s with
